@@ -29,3 +29,28 @@ Check @halt_after_depth1.
 (** legality and null move: the PV of a full-window root search on the real board model *)
 Definition C04_pv_legal := @board_pv_sound_nott.
 Check @board_pv_sound_nott.
+
+(** * End to end, on the sequential UCI model that is compared line by line with the real driver
+    (Model/UciSeq.v [go_depth]: fork, iterative deepening with the engine table, bestmove = head of the last
+    PV; [u_position]): the answer to `go depth d` is a move that is legal in the specification game of the
+    position last set up, the null move only if that game has no legal move - with or without table, also
+    when a draw can be claimed at the root (threefold, clock 100, bare kings: [drawn_roots_answered]) - and
+    the engine's own game is untouched.  Whole sessions: any interleaving of valid position lines,
+    ucinewgame and go depth d ([uci_session_legal_noq]). *)
+From Morlock.Lemmas Require Import UciLegal1 UciLegal2 UciLegal3 UciLegal4 UciLegal.
+Definition C04_bestmove_legal := @go_depth_bestmove_legal.
+Check @go_depth_bestmove_legal.
+Check @go_depth_bestmove_legal_table.
+Check @go_depth_bestmove_legal_noq.
+Check @go_depth_answer.
+Check @uci_session_legal.
+Check @uci_session_legal_noq.
+Check @uci_positions_then_go_noq.
+Check @new_table_TTInv.
+Check drawn_roots_answered.
+Check stalemate_null_move.
+Check sessions_by_theorem.
+Check lied_flag_null_move.
+Print Assumptions go_depth_bestmove_legal.
+Print Assumptions go_depth_bestmove_legal_table.
+Print Assumptions uci_session_legal_noq.
